@@ -11,7 +11,7 @@ import time
 
 from .. import harness, bfs, explore, detsched
 from ..detsched import Sched, WouldBlock
-from . import common
+from . import common, catalog
 
 harness.install()
 from s3transfer.futures import TransferCoordinator, TransferFuture, TransferMeta  # noqa: E402
@@ -348,6 +348,8 @@ def replay(data):
         Sched().run_inline(go)
         bad = [t for t in out['tr'] if t[1] != t[2] or t[3] != t[4]]
         return {'trace': out['tr'], 'violations': bad, 'digest': repr(out['tr'])}
+    if data.get('kind') not in ('bfs', 'par'):
+        return common.replay_manager(data)
     cfg = dict(data['cfg'])
     cfg['_allowed'] = seq_outcomes([tuple(o) for o in cfg['base']], [tuple(o) for o in cfg['ops']])
     x = par_scenario(cfg, data['choices'])
@@ -382,6 +384,12 @@ def run(tier, seed):
                          'replay': {'kind': 'par', 'cfg': cfg, 'choices': ch}})
     cov['parts']['interleavings'] = dict(tot.to_dict(), harnesses=len(cfgs), preemption_bound=bound,
                                          max_threads=tot.max_threads)
+    # end-to-end: the same clauses judged on the field-write timeline of manager scenarios
+    ejobs = catalog.jobs_for('C17', tier, seed)
+    ecov, eviol = common.run_catalogue(ejobs, tier, 'C17')
+    viol.extend(eviol)
+    cov['parts']['manager scenarios'] = ecov
+    tot.caps_hit = list(tot.caps_hit) + list(ecov['caps_hit'])
     cov.update({
         'states': r.states + tot.states, 'transitions': r.transitions + tot.transitions,
         'traces_validated_against_impl': r.transitions + tot.executions,
